@@ -291,8 +291,11 @@ func (r *Runner) Step(rt *rapid.T, s *Stmt) bool {
 		// then hold key-equal rows under a unique index
 		sc := r.S.Exec("SHOW CREATE TABLE " + t.Name)
 		if sc.OK() && len(sc.Rows) == 1 && len(sc.Rows[0]) == 2 && strings.Contains(fmt.Sprint(sc.Rows[0][1]), "`"+s.NewKey.Name+"`") {
+			// known only inside the regions of the finding (whose statements are not executed
+			// once it is listed): anywhere else a left-behind index is a new violation
 			id := cfg.Known[FlagAddUniqueLeft]
-			if id == "" || !kf.Suppress(r.St, id) {
+			inRegion := flags[FlagAddUniqueLeft] || flags[FlagAddUniqueType]
+			if id == "" || !inRegion || !kf.Suppress(r.St, id) {
 				rt.Fatalf("ALTER TABLE .. ADD UNIQUE failed (%v) but the unique index %s exists afterwards, over rows that violate it [finding %s]\nstatement: %s\nrows: %s\nSHOW CREATE TABLE: %v\nhistory:\n%s",
 					res.Err, s.NewKey.Name, id, q, showRows(got), sc.Rows[0][1], r.history())
 			}
